@@ -31,7 +31,8 @@ META = {
     "explanation": "Rule instances over the code that writes task start/end: data dependence of the precise end on the "
                    "in-slot position, control dependence of the start write on a successful first booking, value equality "
                    "of milestone start/end, affine slot offsets (+1 / +0) in backward mode. Necessary conditions; the dates "
-                   "themselves are runtime values and are not decided.",
+                   "themselves are runtime values and are not decided."
+                   " Also: per-direction position terms read from the slot ledger, all-paths clamp to the booked seconds, raise-only start-offset reservation with a zero default for absent ledger entries, recording of the first booked slot when the task completes in it, and milestone dates at the dependency bound in both directions.",
     "assumptions": [],
 }
 
